@@ -159,6 +159,9 @@ func (e Engine) Pool() []Op {
 	for _, o := range nameOps() {
 		add(o)
 	}
+	for _, o := range polarityOps() {
+		add(o)
+	}
 	// a schedule may run the cheaper "spec" stage of any specification operation: close the pool under that
 	for _, o := range append([]Op(nil), pool...) {
 		if o.Kind == "spec_lalr" || o.Kind == "spec_dfa" {
@@ -237,6 +240,29 @@ func nameOps() []Op {
 	return out
 }
 
+// polarityOps are patterns in pairs that differ only in polarity or in one detail of a class - the
+// positive and the negated form of every class notation, a range and its complement, the same
+// category under two spellings - as bare patterns and inside token definitions: whatever is
+// memoised per class must not confuse the two.
+func polarityOps() []Op {
+	pairs := [][2]string{
+		{`\d+x`, `\D+x`}, {`\s`, `\S`}, {`\w+`, `\W+`},
+		{`\p{Lu}+`, `\P{Lu}+`}, {`\p{Greek}`, `\P{Greek}`}, {`\p{L}`, `\P{L}`}, {`\p{Lu}`, `\p{Ll}`},
+		{`[[:alpha:]]+`, `[^[:alpha:]]+`}, {`[[:digit:]]`, `[[:xdigit:]]`}, {`[a-c]`, `[^a-c]`}, {`[\d]`, `[^\d]`},
+		{`a.b`, `a\.b`}, {`x{2,3}`, `x{3,2}`}, {`(ab)+`, `(ab)*`},
+	}
+	var out []Op
+	for i, pr := range pairs {
+		for j, p := range pr {
+			out = append(out, Op{Kind: "nfa", Text: p}, Op{Kind: "regex_dfa", Text: p})
+			if i%2 == 0 || j == 1 {
+				out = append(out, Op{Kind: "spec_dfa", Text: "grammar pol;\nWORD = /" + p + "/;\nstart = WORD \"!\" WORD;\n"})
+			}
+		}
+	}
+	return out
+}
+
 // hotOps is a short list of representative operations per family; every element is in the pool.
 func (e Engine) hotOps(family int) []Op {
 	var out []Op
@@ -254,6 +280,9 @@ func (e Engine) hotOps(family int) []Op {
 	}
 	if family == 4 {
 		return nameOps()
+	}
+	if family == 5 {
+		return polarityOps()
 	}
 	pool := e.Pool()
 	n := 0
@@ -743,7 +772,9 @@ func (e Engine) Run(t *simrt.Tape, c simrt.Case, x *simrt.Ctx) *simrt.Result {
 	pool := e.Pool()
 	logBefore := e.raceLogSize()
 	// half of the cases concentrate on one family of operations (shared state is per package)
-	switch t.Draw(6) {
+	switch t.Draw(7) {
+	case 6:
+		pool = polarityOps()
 	case 5:
 		pool = nameOps()
 	case 0:
@@ -783,7 +814,7 @@ func (e Engine) Run(t *simrt.Tape, c simrt.Case, x *simrt.Ctx) *simrt.Result {
 	}
 
 	if c.Args[0] == kPairs {
-		pool = e.hotOps(t.Draw(5))
+		pool = e.hotOps(t.Draw(6))
 	}
 	switch c.Args[0] {
 	case kHistory:
